@@ -43,9 +43,16 @@ def continuous(conf, seed):
         # either side of the class value
         bpa = {"2to1pa0": 0.0, "2to1pa45": 45.0, "2to1pa120": 120.0}[conf["beam"]]
         bpa += rng.choice([0.0, 0.0, 180.0, -180.0]) + rng.choice([0.0, 0.0, 5.0, -5.0])
-    kind = rng.choice(["point", "extended", "extended"] + (["crossed"] if conf["beam"] != "circ" else []))
+    kind = rng.choice(["point", "extended", "extended"] + (["crossed", "compact"] if conf["beam"] != "circ" else []))
     if kind == "point":
         a, b, pa = bmaj, bmin, bpa
+    elif kind == "compact":
+        # each axis at least the corresponding beam axis (a >= bmaj, b >= bmin) at ANY orientation, in particular
+        # across the beam: the fit has to exchange the roles of its two widths
+        kind = "extended"
+        a = bmaj * rng.uniform(1.0, 1.3)
+        b = bmin * rng.uniform(1.0, 1.3)
+        pa = ((bpa + rng.choice([90.0, 90.0, 0.0, 40.0, 75.0]) + rng.uniform(-10, 10) + 90.0) % 180.0) - 90.0
     elif kind == "crossed":
         # elongated across the beam: the fitted minor axis has to grow well beyond the beam
         kind = "extended"
@@ -257,7 +264,7 @@ def run(ctx):
         ctx.sample({k: r.get(k) for k in ("id", "conf", "n_components", "dpos_1e4px", "peak_ppm", "a_ppm", "b_ppm",
                                           "dpa_udeg", "int_ppm", "z_milli", "truth", "reported")})
     ctx.assumptions += ["isolated: one source, >= 30 px from every image edge", "source at least as large as the beam in both axes "
-                        "(point source = beam, or minor axis >= beam major axis)", "PA compared only for axis ratio >= 1.02 (noise: >= 1.2)",
+                        "(point source = beam; a >= beam major and b >= beam minor at any orientation; or minor axis >= beam major axis)", "PA compared only for axis ratio >= 1.02 (noise: >= 1.2)",
                         "noise is Gaussian, correlated on the beam scale (the noise model Aegean's covariance matrix assumes), sigma = 1",
                         "internal bkg/rms only with noise (a noise-free image has rms 0)",
                         "sampling strength in the continuous parameters; the 5-sigma clause is statistical"]
